@@ -12,4 +12,4 @@ pub mod walk;
 pub use drive::{main_with, GrammarEntry, RuleEntry, VariantEntry};
 pub use obs::*;
 pub use pestside::{run_pest, PestObs};
-pub use run::{getter_obs, grp, hash_of, run_rule, run_variant, view_atomic, view_full, view_silent, Extra, Flat, Inputs};
+pub use run::{getter_obs, grp, hash_of, run_rule, run_variant, run_variant_with, view_atomic, view_full, view_silent, Extra, Flat, Inputs};
